@@ -154,6 +154,11 @@ def run(tier, seed):
     C03.run(tier, seed, ck)
     lf = C01.run(tier, seed, ck)
     failures += lf or []
+    # two-step histories: observers after a mutation depend only on the documented state (no stale hidden state)
+    from props import hidden
+    hf = hidden.run(ck, tier)
+    ck.extra['_hidden'] = hf
+    failures += ['hidden state after %s (%s)' % (f_[0], f_[1]) for f_ in hf]
     # (3) frame: ownership analysis of every call configuration
     ck2, findings = C15.analyse_all(tier, seed, 'C10', 'model_checking')
     ck.obls += [dict(o, id=o['id'].replace('C15.', 'C10.frame.')) for o in ck2.obls]
@@ -171,7 +176,7 @@ def run(tier, seed):
     ck.extra['operation_table'] = {k: '%d/%d' % (v[1], v[0]) for k, v in sorted(table.items())}
     bad = [o for o in ck.obls if not o['ok']]
     if (failures or bad) and not ck.violations:
-        path = ck.save_replay({'property': 'C10', 'cases': [{'kind': 'history', 'n': ck.seed + s} for s in range(12)] + [{'kind': 'mem'}],
+        path = ck.save_replay({'property': 'C10', 'cases': [{'kind': 'hidden-scalar' if f_[3] == 'hs' else 'hidden-element', 'n': f_[2]} for f_ in ck.extra.get('_hidden', [])[:8]] + [{'kind': 'history', 'n': ck.seed + s} for s in range(12)] + [{'kind': 'mem'}],
                                'failed': [str(f) for f in failures[:5]] + [o['id'] for o in bad[:5]]})
         ok, out = core.go_test(path)
         if not ok and 'MISMATCH' in out:
